@@ -168,6 +168,8 @@ m(["C18"], "err-becomes-panic", "src/tokenizer.rs", "            if top == Token
 m(["C18"], "unwrap-on-parse", "src/s_linked_list.rs",
   "                    match parse_term(s2) {\n                        Ok(term) => {\n                            list = link_front(term, false, list);\n                            end_index = ind;\n                        },\n                        Err(err) => {\n                            return Err(err);\n                        }\n                    }",
   "                    list = link_front(parse_term(s2).unwrap(), false, list);\n                    end_index = ind;", "P2")
+m(["C18"], "parentheses-order-not-tested", "src/parse_goals.rs", "    if right < left {\n        let s = chars_to_string!(goal);\n        return Err(iop_error(\"Invalid parentheses\", &s));\n    }\n", "", "P3")
+m(["C18"], "parentheses-sentinel-returned", "src/parse_goals.rs", "    if left == -1 { return Ok(None); }\n    return Ok(Some((left as usize, right as usize)));", "    if left == -1 && right == -1 { return Ok(None); }\n    return Ok(Some((left as usize, right as usize)));", "P3")
 m(["C18"], "loop-never-advances", "src/infix.rs", "        prev = c1;\n        i += 1;\n\n    } // while\n\n    return (Infix::None, 0);  // failed to find infix\n\n} // check_infix", "        prev = c1;\n        if c1 != '\\u{0}' { i += 1; }\n\n    } // while\n\n    return (Infix::None, 0);  // failed to find infix\n\n} // check_infix", "L")
 # ---------------- globals / timer / unsafe (C22-C24) ----------------
 m(["C22"], "constructor-keeps-flag", "src/s_complex.rs", "    start_query();  // Reset LOGIC_VAR_ID and SUIRON_STOP_QUERY.", "    clear_id();  // Reset LOGIC_VAR_ID.", "R2/reset(SUIRON_STOP_QUERY)")
